@@ -124,21 +124,32 @@ Definition fpoint_at (f : fault) (k : nat) : fpoint :=
 Definition is_in_body (f : fault) : bool := match f with InBody => true | _ => false end.
 Definition sync_fault (f : fault) : Prop := match f with AfterSet _ => False | _ => True end.
 
-(* an entry of the `applied` list: (tgt, attr, orig) with None = _MISSING *)
-Definition frame := (target * attr * option value)%type.
+(* an entry of the `applied` list: (tgt, attr, orig, owned) with orig None = _MISSING.
+   CODE SHAPES.  `fixed = true` is the code since /repo commit b0781c1: `owned = attr in vars(tgt)` is
+   recorded when patching and an attribute that was not owned is restored by delattr.
+   `fixed = false` is the code before that commit: nothing recorded (owned behaves as True), every
+   non-missing original is written back with setattr.  The harness probes which shape is running. *)
+Definition frame := (target * attr * option value * bool)%type.
 
-Section PatchModel.
+Section PatchCore.
 Variable M : hierarchy.
+Variable fixed : bool.
 
 Definition lookup (h : heap) (t : target) (a : attr) : option value := find_attr h a (t :: M t).
 
 (* the body of the `finally` loop *)
 Definition restore1 (h : heap) (fr : frame) : heap :=
-  let '(t, a, o) := fr in
-  match o with
-  | Some v => py_setattr h t a v
-  | None => match py_delattr h t a with Some h' => h' | None => h end   (* except Exception: pass *)
+  let '(t, a, o, owned) := fr in
+  match o, owned with
+  | Some v, true => py_setattr h t a v                       (* else: setattr(tgt, attr, orig) *)
+  | _, _ =>                                                  (* if orig is _MISSING or not owned: *)
+    match py_delattr h t a with
+    | Some h' => h'
+    | None => match o with Some v => py_setattr h t a v | None => h end   (* except: if orig is not _MISSING: setattr *)
+    end
   end.
+(* `owned = s.attr in vars(tgt)` (TypeError -> True); the old code has no such flag *)
+Definition owned_flag (h : heap) (t : target) (a : attr) : bool := if fixed then is_some (h t a) else true.
 Definition restore_all (applied : list frame) (h : heap) : heap := fold_left restore1 (rev applied) h.
 Arguments restore1 : simpl never.
 
@@ -159,7 +170,7 @@ Fixpoint apply_loop (specs : list spec) (k : nat) (f : fault) (h : heap) (applie
         let h1 := py_setattr h t a v in                     (* setattr(tgt, s.attr, new) *)
         match fp with
         | FAfter => (h1, applied, Raised)
-        | _ => apply_loop rest (S k) f h1 (applied ++ [(t, a, orig)])   (* applied.append(...) *)
+        | _ => apply_loop rest (S k) f h1 (applied ++ [(t, a, orig, owned_flag h t a)])   (* applied.append(...) *)
         end
       end
     end
@@ -201,7 +212,7 @@ Fixpoint core (items : list item) (body : heap -> heap * outcome) (h : heap) : h
         let h1 := py_setattr h t a v in
         match fp with
         | FAfter => (h1, Raised)
-        | _ => let r := core rest body h1 in (restore1 (fst r) (t, a, orig), snd r)
+        | _ => let r := core rest body h1 in (restore1 (fst r) (t, a, orig, owned_flag h t a), snd r)
         end
       end
     end
@@ -267,6 +278,17 @@ Proof.
   - rewrite core_app. now apply core_body_ext.
 Qed.
 
+End PatchCore.
+Arguments restore1 : simpl never.
+
+(* ################################################################## PART L — the code BEFORE b0781c1
+   (fixed = false).  Kept because the check must stay meaningful for both code shapes and because
+   the refutations below document the defects that commit repaired.                               *)
+Section PatchModel.
+Variable M : hierarchy.
+Notation lookup := (lookup M).
+Notation core := (core M false).
+
 (* ------------------------------------------------------------------ what is restored: relation R *)
 (* R S h h' : h' is h except that keys in S which h does not own may have been MATERIALISED: the own
    entry now holds what getattr used to find through the ancestors (None stays None).               *)
@@ -286,17 +308,23 @@ Definition body_restores (body : heap -> heap * outcome) : Prop :=
 Lemma body_restores_mat body : body_restores body -> body_materializes_only [] body.
 Proof. intros H h0 u b. left. apply H. Qed.
 
-Lemma restore1_same h t a o : restore1 h (t, a, o) t a = o.
+Lemma restore1_same h t a o : restore1 h (t, a, o, true) t a = o.
 Proof.
   unfold restore1. destruct o as [v|]; [apply set_same|].
   unfold py_delattr. destruct (h t a) eqn:E; [|assumption]. now rewrite !N.eqb_refl.
 Qed.
-Lemma restore1_other h t a o u b : (u, b) <> (t, a) -> restore1 h (t, a, o) u b = h u b.
+Lemma del_other h t a h' u b : py_delattr h t a = Some h' -> (u, b) <> (t, a) -> h' u b = h u b.
 Proof.
-  intro H. unfold restore1. destruct o as [v|]; [now apply set_other|].
-  unfold py_delattr. destruct (h t a) eqn:E; [|reflexivity].
+  unfold py_delattr. destruct (h t a); [|discriminate]. intros E H. inversion E; subst h'.
   destruct (u =? t)%N eqn:E1; [|reflexivity]. destruct (b =? a)%N eqn:E2; [|reflexivity].
   apply N.eqb_eq in E1. apply N.eqb_eq in E2. subst. now contradiction H.
+Qed.
+Lemma restore1_other h t a o ow u b : (u, b) <> (t, a) -> restore1 h (t, a, o, ow) u b = h u b.
+Proof.
+  intro H. unfold restore1.
+  destruct (py_delattr h t a) as [h'|] eqn:Ed.
+  - destruct o as [v|]; [destruct ow; [now apply set_other|]|]; now apply (del_other h t a).
+  - destruct o as [v|]; [|destruct ow; reflexivity]. destruct ow; now apply set_other.
 Qed.
 Lemma lookup_owned h t a v : h t a = Some v -> lookup h t a = Some v.
 Proof. intro H. unfold lookup. simpl. now rewrite H. Qed.
@@ -508,7 +536,7 @@ Theorem with_patches_R specs f body Sb h :
   sync_fault f ->
   clash_free M (owned_in h) (map spec_key specs) Sb = true ->
   body_materializes_only M Sb body ->
-  R (map spec_key specs ++ Sb) h (fst (with_patches M specs f body h)).
+  R (map spec_key specs ++ Sb) h (fst (with_patches M false specs f body h)).
 Proof.
   intros Hf Hc Hb. rewrite with_patches_core.
   pose proof (annotate_keys f specs) as Ek.
@@ -526,7 +554,7 @@ Theorem apply_patches_restores specs f body h :
   no_inherited_clash M h specs = true ->
   body_restores body ->
   forall D a, mro_coherent M h specs D a = true ->
-    lookup (fst (with_patches M specs f body h)) D a = lookup h D a.
+    lookup (fst (with_patches M false specs f body h)) D a = lookup h D a.
 Proof.
   intros Hf Hc Hb D a Hcoh.
   apply (R_lookup M (map spec_key specs ++ [])).
@@ -536,7 +564,7 @@ Qed.
 
 Corollary apply_patches_restores_single_inheritance specs f body h :
   tail_coherent M -> sync_fault f -> no_inherited_clash M h specs = true -> body_restores body ->
-  forall D a, lookup (fst (with_patches M specs f body h)) D a = lookup h D a.
+  forall D a, lookup (fst (with_patches M false specs f body h)) D a = lookup h D a.
 Proof.
   intros HT Hf Hc Hb D a. apply apply_patches_restores; try assumption. now apply coh_tail.
 Qed.
@@ -548,7 +576,7 @@ Theorem nested_restores specs f body Sb h :
   clash_free M (owned_in h) (map spec_key specs) Sb = true ->
   body_materializes_only M Sb body ->
   forall D a, coh M h (map spec_key specs ++ Sb) a (D :: M D) = true ->
-    lookup (fst (with_patches M specs f body h)) D a = lookup h D a.
+    lookup (fst (with_patches M false specs f body h)) D a = lookup h D a.
 Proof.
   intros Hf Hc Hb D a Hcoh. apply (R_lookup M (map spec_key specs ++ Sb)); [|assumption].
   now apply with_patches_R.
@@ -559,7 +587,7 @@ Theorem with_patches_composes specs f body Sb :
   sync_fault f ->
   static_clash_free M (map spec_key specs) Sb = true ->
   body_materializes_only M Sb body ->
-  body_materializes_only M (map spec_key specs ++ Sb) (with_patches M specs f body).
+  body_materializes_only M (map spec_key specs ++ Sb) (with_patches M false specs f body).
 Proof.
   intros Hf Hc Hb h0. apply with_patches_R; try assumption.
   apply (clash_free_mono M _ _ (fun _ _ => false)); [intros; discriminate|exact Hc].
@@ -600,7 +628,7 @@ Theorem stack_restores frames body h :
   clash_free M (owned_in h) (stack_keys frames) [] = true ->
   body_restores body ->
   forall D a, coh M h (stack_keys frames) a (D :: M D) = true ->
-    lookup (fst (with_stack M frames body h)) D a = lookup h D a.
+    lookup (fst (with_stack M false frames body h)) D a = lookup h D a.
 Proof.
   intros Hf Hc Hb D a Hcoh. rewrite with_stack_core.
   destruct (stack_items_keys_incl frames) as [rest Ek].
@@ -622,7 +650,7 @@ Qed.
 Lemma core_owned t a x : forall items body h,
   sync_items items ->
   (forall h0, h0 t a = Some x -> fst (body h0) t a = Some x) ->
-  h t a = Some x -> fst (core M items body h) t a = Some x.
+  h t a = Some x -> fst (core M false items body h) t a = Some x.
 Proof.
   induction items as [|[s fp] rest IH]; intros body h Hs Hb Hh; simpl; [now apply Hb|].
   assert (Hs' : sync_items rest) by (intros s0 I; apply (Hs s0); now right).
@@ -637,7 +665,7 @@ Proof.
 Qed.
 Theorem owned_restored_exactly specs f body h t a x :
   sync_fault f -> body_restores body -> h t a = Some x ->
-  fst (with_patches M specs f body h) t a = Some x.
+  fst (with_patches M false specs f body h) t a = Some x.
 Proof.
   intros Hf Hb Hh. rewrite with_patches_core. apply core_owned; try assumption.
   - now apply sync_annotate.
@@ -646,7 +674,7 @@ Qed.
 (* (ii) an attribute that did not resolve at all is absent again (restored by delattr) *)
 Theorem missing_restored_exactly specs f body h t a :
   sync_fault f -> no_inherited_clash M h specs = true -> body_restores body ->
-  lookup h t a = None -> fst (with_patches M specs f body h) t a = None.
+  lookup h t a = None -> fst (with_patches M false specs f body h) t a = None.
 Proof.
   intros Hf Hc Hb Hl.
   assert (Hn : h t a = None).
@@ -660,8 +688,8 @@ Qed.
    getattr found before.                                                                            *)
 Theorem own_after_is_own_or_inherited specs f body h t a :
   sync_fault f -> no_inherited_clash M h specs = true -> body_restores body ->
-  fst (with_patches M specs f body h) t a = h t a \/
-  (In (t, a) (map spec_key specs) /\ h t a = None /\ fst (with_patches M specs f body h) t a = lookup h t a).
+  fst (with_patches M false specs f body h) t a = h t a \/
+  (In (t, a) (map spec_key specs) /\ h t a = None /\ fst (with_patches M false specs f body h) t a = lookup h t a).
 Proof.
   intros Hf Hc Hb.
   destruct (with_patches_R specs f body [] h Hf Hc (body_restores_mat M _ Hb) t a) as [E|[I [N L]]].
@@ -670,7 +698,7 @@ Proof.
 Qed.
 Theorem untouched_keys_untouched specs f body h t a :
   sync_fault f -> no_inherited_clash M h specs = true -> body_restores body ->
-  ~ In (t, a) (map spec_key specs) -> fst (with_patches M specs f body h) t a = h t a.
+  ~ In (t, a) (map spec_key specs) -> fst (with_patches M false specs f body h) t a = h t a.
 Proof.
   intros Hf Hc Hb Hn. destruct (own_after_is_own_or_inherited specs f body h t a Hf Hc Hb) as [E|[I _]];
     [assumption|contradiction].
@@ -707,7 +735,7 @@ Qed.
 Fixpoint run_history (hist : list (list (list spec * fault))) (body : heap -> heap * outcome) (h : heap) : heap :=
   match hist with
   | [] => h
-  | frames :: rest => run_history rest body (fst (with_stack M frames body h))
+  | frames :: rest => run_history rest body (fst (with_stack M false frames body h))
   end.
 Theorem history_restores S body : body_restores body ->
   forall hist h,
@@ -719,7 +747,7 @@ Theorem history_restores S body : body_restores body ->
 Proof.
   intros Hb. induction hist as [|frames rest IH]; intros h Hall HG D a; simpl; [reflexivity|].
   destruct (Hall frames (or_introl eq_refl)) as [Hf [Hi Hc]].
-  set (h' := fst (with_stack M frames body h)).
+  set (h' := fst (with_stack M false frames body h)).
   assert (HR : R S h h').
   { unfold h'. rewrite with_stack_core.
     destruct (stack_items_keys_incl frames) as [rest' Ek].
@@ -741,12 +769,14 @@ Qed.
 End PatchTheorems.
 
 (* ================================================================== apply_monkey_patches *)
-(* _PATCH_STATE : (tgt, attr) -> {"orig", "count"}.  An activation patches a key only on the 0 -> 1
-   transition and restores it on 1 -> 0.  NOTE the apply loop runs BEFORE the try: an exception
-   while entering (getattr without default on a missing attribute, patch_fn raising) unwinds
-   nothing — modelled faithfully, see amp_apply_fault_leaks.                                        *)
-Definition pstate := target -> attr -> option (value * Z).
-Definition ps_upd (ps : pstate) (t : target) (a : attr) (e : option (value * Z)) : pstate :=
+(* _PATCH_STATE : (tgt, attr) -> {"orig", "count", "owned"}.  An activation patches a key only on the
+   0 -> 1 transition and restores it on 1 -> 0.
+   fixed = true  (since b0781c1): the apply loop is INSIDE the try, `owned` is recorded, an unowned
+                 attribute is restored by delattr (fallback setattr);
+   fixed = false (before): the apply loop ran BEFORE the try — an exception while entering unwound
+                 nothing (amp_apply_fault_leaks) — and no `owned` (st.get("owned", True)).           *)
+Definition pstate := target -> attr -> option (value * Z * bool).
+Definition ps_upd (ps : pstate) (t : target) (a : attr) (e : option (value * Z * bool)) : pstate :=
   fun u b => if (u =? t)%N && (b =? a)%N then e else ps u b.
 Definition ps_empty : pstate := fun _ _ => None.
 (* (tgt, attr, patch_fn); patch_fn result None = it raises *)
@@ -763,8 +793,9 @@ Proof.
   apply N.eqb_eq in E1. apply N.eqb_eq in E2. subst. now contradiction H.
 Qed.
 
-Section Amp.
+Section AmpCore.
 Variable M : hierarchy.
+Variable fixed : bool.
 Notation lookup := (lookup M).
 
 Fixpoint amp_enter (ks : list amp_spec) (k : nat) (f : fault) (h : heap) (ps : pstate) (touched : list key)
@@ -773,8 +804,8 @@ Fixpoint amp_enter (ks : list amp_spec) (k : nat) (f : fault) (h : heap) (ps : p
   | [] => (h, ps, touched, Returned)
   | (t, a, pf) :: rest =>
     match ps t a with
-    | Some (orig, c) =>                                       (* st["count"] += 1 *)
-      amp_enter rest (S k) f h (ps_upd ps t a (Some (orig, (c + 1)%Z))) (touched ++ [(t, a)])
+    | Some (orig, c, ow) =>                                   (* st["count"] += 1 *)
+      amp_enter rest (S k) f h (ps_upd ps t a (Some (orig, (c + 1)%Z, ow))) (touched ++ [(t, a)])
     | None =>
       match fpoint_at f k with
       | FBefore => (h, ps, touched, Raised)
@@ -788,7 +819,8 @@ Fixpoint amp_enter (ks : list amp_spec) (k : nat) (f : fault) (h : heap) (ps : p
             let h1 := py_setattr h t a new in
             match fp with
             | FAfter => (h1, ps, touched, Raised)
-            | _ => amp_enter rest (S k) f h1 (ps_upd ps t a (Some (orig, 1%Z))) (touched ++ [(t, a)])
+            | _ => amp_enter rest (S k) f h1 (ps_upd ps t a (Some (orig, 1%Z, owned_flag fixed h t a)))
+                             (touched ++ [(t, a)])
             end
           end
         end
@@ -800,10 +832,10 @@ Definition amp_exit1 (hp : heap * pstate) (k : key) : heap * pstate :=
   let (h, ps) := hp in let (t, a) := k in
   match ps t a with
   | None => (h, ps)                                           (* if not st: continue *)
-  | Some (orig, c) =>
+  | Some (orig, c, ow) =>
     let c' := (c - 1)%Z in
-    if (c' =? 0)%Z then (py_setattr h t a orig, ps_upd ps t a None)    (* setattr; finally pop *)
-    else (h, ps_upd ps t a (Some (orig, c')))
+    if (c' =? 0)%Z then (restore1 h (t, a, Some orig, ow), ps_upd ps t a None)   (* restore; finally pop *)
+    else (h, ps_upd ps t a (Some (orig, c', ow)))
   end.
 Definition amp_exit_all (touched : list key) (hp : heap * pstate) : heap * pstate :=
   fold_left amp_exit1 (rev touched) hp.
@@ -814,10 +846,12 @@ Definition amp_body_of (f : fault) (body : amp_body) : amp_body := if is_in_body
 Definition amp_finish (body : amp_body) (r : heap * pstate * list key * outcome) : heap * pstate * outcome :=
   let '(h1, ps1, touched, oc) := r in
   match oc with
-  | Raised => (h1, ps1, Raised)                               (* raised before `try`: nothing unwound *)
+  | Raised =>
+    if fixed then (amp_exit_all touched (h1, ps1), Raised)    (* the loop is inside the try: finally runs *)
+    else (h1, ps1, Raised)                                    (* raised before `try`: nothing unwound *)
   | Returned =>
     let '(h2, ps2, oc2) := body (h1, ps1) in
-    let (h3, ps3) := amp_exit_all touched (h2, ps2) in (h3, ps3, oc2)
+    (amp_exit_all touched (h2, ps2), oc2)
   end.
 Definition with_amp (ks : list amp_spec) (f : fault) (body : amp_body) (hp : heap * pstate)
   : heap * pstate * outcome :=
@@ -832,9 +866,9 @@ Fixpoint amp_nested (ks : list amp_spec) (k : nat) (f : fault) (body : amp_body)
   | [] => (body (h, ps), true)
   | (t, a, pf) :: rest =>
     match ps t a with
-    | Some (orig, c) =>
-      let r := amp_nested rest (S k) f body h (ps_upd ps t a (Some (orig, (c + 1)%Z))) in
-      if snd r then (amp_exit1 (fst (fst r)) (t, a), snd (fst r), true) else r
+    | Some (orig, c, ow) =>
+      let r := amp_nested rest (S k) f body h (ps_upd ps t a (Some (orig, (c + 1)%Z, ow))) in
+      if snd r || fixed then (amp_exit1 (fst (fst r)) (t, a), snd (fst r), snd r) else r
     | None =>
       match fpoint_at f k with
       | FBefore => (h, ps, Raised, false)
@@ -849,8 +883,8 @@ Fixpoint amp_nested (ks : list amp_spec) (k : nat) (f : fault) (body : amp_body)
             match fp with
             | FAfter => (h1, ps, Raised, false)
             | _ =>
-              let r := amp_nested rest (S k) f body h1 (ps_upd ps t a (Some (orig, 1%Z))) in
-              if snd r then (amp_exit1 (fst (fst r)) (t, a), snd (fst r), true) else r
+              let r := amp_nested rest (S k) f body h1 (ps_upd ps t a (Some (orig, 1%Z, owned_flag fixed h t a))) in
+              if snd r || fixed then (amp_exit1 (fst (fst r)) (t, a), snd (fst r), snd r) else r
             end
           end
         end
@@ -864,19 +898,22 @@ Proof. unfold amp_exit_all. rewrite rev_app_distr. reflexivity. Qed.
 Lemma amp_loop_nested body f : forall ks k h ps touched,
   amp_finish body (amp_enter ks k f h ps touched)
   = (let r := amp_nested ks k f body h ps in
-     if snd r then (amp_exit_all touched (fst (fst r)), snd (fst r)) else fst r).
+     if snd r || fixed then (amp_exit_all touched (fst (fst r)), snd (fst r)) else fst r).
 Proof.
   induction ks as [|[[t a] pf] rest IH]; intros k h ps touched.
-  - simpl. destruct (body (h, ps)) as [[h2 ps2] oc2]. simpl.
-    destruct (amp_exit_all touched (h2, ps2)). reflexivity.
-  - simpl. destruct (ps t a) as [[orig c]|].
+  - simpl. destruct (body (h, ps)) as [[h2 ps2] oc2]. reflexivity.
+  - simpl. destruct (ps t a) as [[[orig c] ow]|].
     + rewrite IH. cbv zeta. destruct (amp_nested rest (S k) f body h _) as [[[h2 ps2] oc2] ent]. simpl.
-      destruct ent; simpl; [|reflexivity]. now rewrite amp_exit_all_snoc.
-    + destruct (fpoint_at f k); try reflexivity;
-        destruct (lookup h t a) as [orig|]; try reflexivity;
-        destruct (pf orig) as [new|]; try reflexivity.
+      destruct (ent || fixed) eqn:E; simpl; rewrite E; [|reflexivity]. now rewrite amp_exit_all_snoc.
+    + assert (F : forall hx, amp_finish body (hx, ps, touched, Raised)
+                = (let r := (hx, ps, Raised, false) in
+                   if snd r || fixed then (amp_exit_all touched (fst (fst r)), snd (fst r)) else fst r))
+        by (intro hx; simpl; destruct fixed; reflexivity).
+      destruct (fpoint_at f k); try apply F;
+        destruct (lookup h t a) as [orig|]; try apply F;
+        destruct (pf orig) as [new|]; try apply F.
       rewrite IH. cbv zeta. destruct (amp_nested rest (S k) f body _ _) as [[[h2 ps2] oc2] ent]. simpl.
-      destruct ent; simpl; [|reflexivity]. now rewrite amp_exit_all_snoc.
+      destruct (ent || fixed) eqn:E; simpl; rewrite E; [|reflexivity]. now rewrite amp_exit_all_snoc.
 Qed.
 
 Lemma amp_entered_nested body f : forall ks k h ps touched,
@@ -884,31 +921,52 @@ Lemma amp_entered_nested body f : forall ks k h ps touched,
   = snd (amp_nested ks k f body h ps).
 Proof.
   induction ks as [|[[t a] pf] rest IH]; intros k h ps touched; simpl; [reflexivity|].
-  destruct (ps t a) as [[orig c]|].
-  - rewrite IH. destruct (amp_nested rest (S k) f body h _) as [[[h2 ps2] oc2] ent]. simpl. now destruct ent.
+  destruct (ps t a) as [[[orig c] ow]|].
+  - rewrite IH. destruct (amp_nested rest (S k) f body h _) as [[[h2 ps2] oc2] ent]. simpl.
+    now destruct (ent || fixed).
   - destruct (fpoint_at f k); try reflexivity;
       destruct (lookup h t a) as [orig|]; try reflexivity;
       destruct (pf orig) as [new|]; try reflexivity.
-    rewrite IH. destruct (amp_nested rest (S k) f body _ _) as [[[h2 ps2] oc2] ent]. simpl. now destruct ent.
+    rewrite IH. destruct (amp_nested rest (S k) f body _ _) as [[[h2 ps2] oc2] ent]. simpl.
+    now destruct (ent || fixed).
 Qed.
 
 Theorem with_amp_nested ks f body h ps :
-  with_amp ks f body (h, ps)
-  = (let r := amp_nested ks 0 f (amp_body_of f body) h ps in
-     if snd r then (fst (fst (fst r)), snd (fst (fst r)), snd (fst r)) else fst r)
+  with_amp ks f body (h, ps) = fst (amp_nested ks 0 f (amp_body_of f body) h ps)
   /\ amp_entered ks f (h, ps) = snd (amp_nested ks 0 f (amp_body_of f body) h ps).
 Proof.
   split.
   - unfold with_amp. simpl. rewrite amp_loop_nested. cbv zeta.
     destruct (amp_nested ks 0 f (amp_body_of f body) h ps) as [[[h2 ps2] oc2] ent]. simpl.
-    destruct ent; reflexivity.
+    destruct (ent || fixed); reflexivity.
   - unfold amp_entered. simpl. apply amp_entered_nested.
 Qed.
 
+(* nesting depth n of the same activation (outer trace, then function bodies re-entering it) *)
+Fixpoint amp_depth (n : nat) (ks : list amp_spec) (fb : fault) (body : amp_body) : amp_body :=
+  match n with
+  | 0 => amp_body_of fb body
+  | S m => with_amp ks NoFault (amp_depth m ks fb body)
+  end.
+
+End AmpCore.
+
 (* ---- invariants *)
-Definition ps_wf (ps : pstate) : Prop := forall t a orig c, ps t a = Some (orig, c) -> (1 <= c)%Z.
+Definition ps_wf (ps : pstate) : Prop := forall t a orig c ow, ps t a = Some (orig, c, ow) -> (1 <= c)%Z.
 Definition active (ps : pstate) (k : key) : Prop := is_some (ps (fst k) (snd k)) = true.
 Definition all_active (ps : pstate) (ks : list amp_spec) : Prop := forall s, In s ks -> active ps (amp_key s).
+
+(* ################################################################## PART L (continued): ref-counting of
+   the code BEFORE b0781c1 *)
+Section Amp.
+Variable M : hierarchy.
+Notation lookup := (lookup M).
+Notation amp_nested := (amp_nested M false).
+Notation with_amp := (with_amp M false).
+Notation amp_entered := (amp_entered M false).
+Notation amp_depth := (amp_depth M false).
+Notation with_amp_nested := (with_amp_nested M false).
+
 
 (* the apply_patches items an activation amounts to: first occurrences of inactive keys *)
 Definition lift (pf : value -> option value) : option value -> option value :=
@@ -936,7 +994,7 @@ Lemma amp_nested_sim ks0 body f : amp_body_ps_ok ks0 body ->
   amp_nested ks k f body h ps = (h2, ps2, oc, true) ->
   (forall t a, ps2 t a = ps t a) /\
   exists ps_in, ps_wf ps_in /\ all_active ps_in ks0 /\
-    (h2, oc) = core M (amp_items act ks k f) (proj_body body ps_in) h.
+    (h2, oc) = core M false (amp_items act ks k f) (proj_body body ps_in) h.
 Proof.
   intro Hb. induction ks as [|[[t a] pf] rest IH]; intros k h ps act h2 ps2 oc Hwf Hact Hcov H.
   - simpl in H. destruct (body (h, ps)) as [[hb psb] ocb] eqn:Eb. inversion H; subst.
@@ -945,16 +1003,16 @@ Proof.
     split.
     + intros t a. pose proof (Hb h ps Hwf Hall t a) as E. now rewrite Eb in E.
     + exists ps. repeat split; try assumption. simpl. unfold proj_body. now rewrite Eb.
-  - simpl in H. simpl. destruct (ps t a) as [[orig c]|] eqn:Ep.
+  - simpl in H. simpl. destruct (ps t a) as [[[orig c] ow]|] eqn:Ep.
     + (* already active: count + 1 *)
       rewrite Hact, Ep. simpl.
-      set (psb := ps_upd ps t a (Some (orig, (c + 1)%Z))) in *.
+      set (psb := ps_upd ps t a (Some (orig, (c + 1)%Z, ow))) in *.
       destruct (amp_nested rest (S k) f body h psb) as [[[h2' ps2'] oc'] ent] eqn:En. simpl in H.
-      destruct ent; [|inversion H].
+      destruct ent; simpl in H; [|inversion H].
       assert (Hwfb : ps_wf psb).
-      { intros u b o' c' E. unfold psb, ps_upd in E. destruct ((u =? t)%N && (b =? a)%N).
-        - inversion E. specialize (Hwf _ _ _ _ Ep). timeout 20 lia.
-        - now apply (Hwf u b o'). }
+      { intros u b o' c' w' E. unfold psb, ps_upd in E. destruct ((u =? t)%N && (b =? a)%N).
+        - inversion E. specialize (Hwf _ _ _ _ _ Ep). timeout 20 lia.
+        - now apply (Hwf u b o' c' w'). }
       assert (Hactb : forall u b, act u b = is_some (psb u b)).
       { intros u b. unfold psb, ps_upd. destruct ((u =? t)%N && (b =? a)%N) eqn:E; [|apply Hact].
         apply andb_true_iff in E. destruct E as [E1 E2]. apply N.eqb_eq in E1. apply N.eqb_eq in E2.
@@ -966,11 +1024,11 @@ Proof.
         - right. unfold active, psb, ps_upd in *. destruct (_ && _); [reflexivity|assumption]. }
       destruct (IH (S k) h psb act h2' ps2' oc' Hwfb Hactb Hcovb En) as [Hps [ps_in [Hwi [Hai Hsim]]]].
       unfold amp_exit1 in H. rewrite Hps in H. unfold psb in H at 1. rewrite ps_upd_same in H.
-      assert (Ec : ((c + 1 - 1 =? 0) = false)%Z) by (specialize (Hwf _ _ _ _ Ep); apply Z.eqb_neq; timeout 20 lia).
+      assert (Ec : ((c + 1 - 1 =? 0) = false)%Z) by (specialize (Hwf _ _ _ _ _ Ep); apply Z.eqb_neq; timeout 20 lia).
       rewrite Ec in H. inversion H; subst h2 ps2 oc. split.
       * intros u b. destruct (key_eqb (u, b) (t, a)) eqn:Ek.
         -- apply key_eqb_eq in Ek. inversion Ek; subst u b. rewrite ps_upd_same, Ep.
-           f_equal. f_equal. timeout 20 lia.
+           replace (c + 1 - 1)%Z with c by (timeout 20 lia). reflexivity.
         -- assert (Hne : (u, b) <> (t, a)) by (intro E; apply key_eqb_eq in E; congruence).
            rewrite ps_upd_other by assumption. rewrite Hps. unfold psb. now apply ps_upd_other.
       * exists ps_in. repeat split; assumption.
@@ -980,13 +1038,13 @@ Proof.
         destruct (lookup h t a) as [orig|] eqn:El; try (inversion H; fail);
         destruct (pf orig) as [new|] eqn:Epf; try (inversion H; fail).
       set (h1 := py_setattr h t a new) in *.
-      set (psb := ps_upd ps t a (Some (orig, 1%Z))) in *.
+      set (psb := ps_upd ps t a (Some (orig, 1%Z, true))) in *.
       destruct (amp_nested rest (S k) f body h1 psb) as [[[h2' ps2'] oc'] ent] eqn:En. simpl in H.
-      destruct ent; [|inversion H].
+      destruct ent; simpl in H; [|inversion H].
       assert (Hwfb : ps_wf psb).
-      { intros u b o' c' E. unfold psb, ps_upd in E. destruct ((u =? t)%N && (b =? a)%N).
+      { intros u b o' c' w' E. unfold psb, ps_upd in E. destruct ((u =? t)%N && (b =? a)%N).
         - inversion E. timeout 20 lia.
-        - now apply (Hwf u b o'). }
+        - now apply (Hwf u b o' c' w'). }
       assert (Hactb : forall u b, owned_add act t a u b = is_some (psb u b)).
       { intros u b. unfold owned_add, psb, ps_upd. rewrite Hact.
         destruct ((u =? t)%N && (b =? a)%N); simpl; [apply orb_true_r|apply orb_false_r]. }
@@ -1055,7 +1113,7 @@ Proof.
   destruct (amp_nested_sim ks _ f Hb1 ks 0 h ps (fun t a => is_some (ps t a)) h2 ps2 oc Hwf
               (fun _ _ => eq_refl) (fun s Hs => or_introl Hs) En) as [Hps [ps_in [Hwi [Hai Hsim]]]].
   split; [assumption|].
-  replace h2 with (fst (core M (amp_items (fun t a => is_some (ps t a)) ks 0 f)
+  replace h2 with (fst (core M false (amp_items (fun t a => is_some (ps t a)) ks 0 f)
                             (proj_body (amp_body_of f body) ps_in) h)) by (now rewrite <- Hsim).
   unfold amp_patched. rewrite <- (amp_items_keys _ f ks 0).
   apply (core_R M _ _ _ _ (owned_in h)).
@@ -1078,9 +1136,12 @@ Lemma amp_active_enters body f : forall ks k h ps,
 Proof.
   induction ks as [|[[t a] pf] rest IH]; intros k h ps Ha; simpl; [reflexivity|].
   pose proof (Ha (t, a, pf) (or_introl eq_refl)) as A. unfold active, amp_key in A. simpl in A.
-  destruct (ps t a) as [[orig c]|]; [|discriminate].
-  rewrite IH; [reflexivity|]. intros s Hs. unfold active, ps_upd.
-  destruct (_ && _); [reflexivity|]. apply (Ha s). now right.
+  destruct (ps t a) as [[[orig c] ow]|]; [|discriminate].
+  assert (Hb : all_active (ps_upd ps t a (Some (orig, (c + 1)%Z, ow))) rest).
+  { intros s Hs. unfold active, ps_upd. destruct (_ && _); [reflexivity|]. apply (Ha s). now right. }
+  pose proof (IH (S k) h _ Hb) as IH'.
+  destruct (amp_nested rest (S k) f body h (ps_upd ps t a (Some (orig, (c + 1)%Z, ow)))) as [[[h2 ps2] oc2] ent].
+  simpl in *. now rewrite IH'.
 Qed.
 Theorem refcount_reentrant ks f body Sb h ps :
   no_apply_fault f -> ps_wf ps -> all_active ps ks -> amp_body_ok ks Sb body ->
@@ -1098,12 +1159,6 @@ Proof.
   apply T; [reflexivity|assumption].
 Qed.
 
-(* nesting depth n of the same activation (outer trace, then function bodies re-entering it) *)
-Fixpoint amp_depth (n : nat) (ks : list amp_spec) (fb : fault) (body : amp_body) : amp_body :=
-  match n with
-  | 0 => amp_body_of fb body
-  | S m => with_amp ks NoFault (amp_depth m ks fb body)
-  end.
 Lemma amp_depth_ok ks Sb fb body : amp_body_ok ks Sb body -> forall n, amp_body_ok ks Sb (amp_depth n ks fb body).
 Proof.
   intros Hb. induction n as [|n IH]; simpl; [now apply amp_body_of_ok|].
@@ -1138,6 +1193,208 @@ Proof.
 Qed.
 
 End Amp.
+
+(* ################################################################## PART F — the code SINCE b0781c1
+   (fixed = true): ownership recorded when patching, unowned attributes restored by delattr, the
+   apply loop of apply_monkey_patches inside its try.  Every own dict is restored EXACTLY, hence
+   getattr for every observer — no no_inherited_clash, no MRO coherence.  What remains: the
+   asynchronous fault between setattr and the bookkeeping append (witness below).                  *)
+Section Fixed.
+Variable M : hierarchy.
+Notation lookup := (lookup M).
+
+Lemma own_eq_lookup (h h' : heap) : (forall u b, h' u b = h u b) -> forall D a, lookup h' D a = lookup h D a.
+Proof.
+  intros E D a. unfold Patch.lookup. generalize (D :: M D). induction l as [|w r IH]; simpl; [reflexivity|].
+  now rewrite E, IH.
+Qed.
+
+Lemma restore1_exact h2 h t a :
+  is_some (h2 t a) = true -> restore1 h2 (t, a, lookup h t a, is_some (h t a)) t a = h t a.
+Proof.
+  intro H2. unfold restore1. destruct (h t a) as [x|] eqn:Eh; simpl.
+  - rewrite (lookup_owned M _ _ _ _ Eh). apply set_same.
+  - unfold py_delattr. destruct (h2 t a) eqn:E2; [|discriminate].
+    destruct (lookup h t a); now rewrite !N.eqb_refl.
+Qed.
+
+Lemma core_exact : forall items body h,
+  sync_items items -> body_restores body -> forall u b, fst (core M true items body h) u b = h u b.
+Proof.
+  induction items as [|[s fp] rest IH]; intros body h Hs Hb u b; simpl; [apply Hb|].
+  assert (Hs' : sync_items rest) by (intros s0 I; apply (Hs s0); now right).
+  destruct fp; simpl; [|reflexivity|exfalso; apply (Hs s); now left].
+  destruct (new_value s (lookup h (spec_target s) (spec_attr s))) as [v|]; simpl; [|reflexivity].
+  set (t := spec_target s). set (a := spec_attr s). set (h1 := py_setattr h t a v).
+  pose proof (IH body h1 Hs' Hb) as E.
+  destruct (key_eqb (u, b) (t, a)) eqn:Ek.
+  - apply key_eqb_eq in Ek. inversion Ek; subst u b. unfold owned_flag.
+    apply restore1_exact. rewrite E. unfold h1. now rewrite set_same.
+  - assert (Hne : (u, b) <> (t, a)) by (intro X; apply key_eqb_eq in X; congruence).
+    rewrite restore1_other by assumption. rewrite E. unfold h1. now apply set_other.
+Qed.
+
+(* MAIN: every own dict is restored exactly — for ALL spec lists (duplicates, inheriting targets in
+   any order), ALL synchronous fault points, ALL bodies that restore own dicts exactly *)
+Theorem apply_patches_restores_exact specs f body h :
+  sync_fault f -> body_restores body ->
+  forall u b, fst (with_patches M true specs f body h) u b = h u b.
+Proof.
+  intros Hf Hb u b. rewrite with_patches_core. apply core_exact.
+  - now apply sync_annotate.
+  - unfold body_of. destruct (is_in_body f); [intros h0 u0 b0; reflexivity|assumption].
+Qed.
+(* ... hence getattr, for every observer, with NO side condition *)
+Theorem apply_patches_restores_getattr specs f body h :
+  sync_fault f -> body_restores body ->
+  forall D a, lookup (fst (with_patches M true specs f body h)) D a = lookup h D a.
+Proof. intros Hf Hb. apply own_eq_lookup. now apply apply_patches_restores_exact. Qed.
+(* owned stays owned with the same value, unowned stays unowned *)
+Corollary own_dict_restored specs f body h t a :
+  sync_fault f -> body_restores body ->
+  (forall x, h t a = Some x -> fst (with_patches M true specs f body h) t a = Some x) /\
+  (h t a = None -> fst (with_patches M true specs f body h) t a = None).
+Proof.
+  intros Hf Hb. pose proof (apply_patches_restores_exact specs f body h Hf Hb t a) as E.
+  split; intros; now rewrite E.
+Qed.
+(* nesting: an activation is itself a restoring body, so activations compose to any depth *)
+Theorem with_patches_is_restoring_body specs f body :
+  sync_fault f -> body_restores body -> body_restores (with_patches M true specs f body).
+Proof. intros Hf Hb h0 u b. now apply apply_patches_restores_exact. Qed.
+Theorem stack_restores_exact frames body :
+  (forall sf, In sf frames -> sync_fault (snd sf)) -> body_restores body ->
+  body_restores (with_stack M true frames body).
+Proof.
+  induction frames as [|[specs f] rest IH]; intros Hf Hb; simpl; [assumption|].
+  apply with_patches_is_restoring_body.
+  - apply (Hf (specs, f)). now left.
+  - apply IH; [|assumption]. intros sf I. apply Hf. now right.
+Qed.
+Fixpoint run_history_fixed (hist : list (list (list spec * fault))) (body : heap -> heap * outcome) (h : heap) : heap :=
+  match hist with
+  | [] => h
+  | frames :: rest => run_history_fixed rest body (fst (with_stack M true frames body h))
+  end.
+Theorem history_restores_exact body : body_restores body ->
+  forall hist h,
+  (forall frames, In frames hist -> forall sf, In sf frames -> sync_fault (snd sf)) ->
+  (forall u b, run_history_fixed hist body h u b = h u b) /\
+  (forall D a, lookup (run_history_fixed hist body h) D a = lookup h D a).
+Proof.
+  intros Hb hist h Hall.
+  assert (G : forall u b, run_history_fixed hist body h u b = h u b).
+  { revert h. induction hist as [|frames rest IH]; intros h u b; simpl; [reflexivity|].
+    rewrite IH by (intros fr I; apply Hall; now right).
+    apply stack_restores_exact; [|assumption]. apply Hall. now left. }
+  split; [exact G|]. now apply own_eq_lookup.
+Qed.
+
+(* ---- apply_monkey_patches since b0781c1 *)
+Definition amp_body_exact (body : amp_body) : Prop :=
+  forall h0 ps0, ps_wf ps0 ->
+    (forall t a, snd (fst (body (h0, ps0))) t a = ps0 t a) /\
+    (forall u b, fst (fst (body (h0, ps0))) u b = h0 u b).
+
+Lemma amp_nested_exact body f : sync_fault f -> amp_body_exact body ->
+  forall ks k h ps, ps_wf ps ->
+  let r := amp_nested M true ks k f body h ps in
+  (forall t a, snd (fst (fst r)) t a = ps t a) /\ (forall u b, fst (fst (fst r)) u b = h u b).
+Proof.
+  intros Hf Hb. induction ks as [|[[t a] pf] rest IH]; intros k h ps Hwf; simpl.
+  - destruct (Hb h ps Hwf) as [H1 H2]. destruct (body (h, ps)) as [[hb psb] ocb]. simpl in *. now split.
+  - destruct (ps t a) as [[[orig c] ow]|] eqn:Ep.
+    + set (psb := ps_upd ps t a (Some (orig, (c + 1)%Z, ow))).
+      assert (Hwfb : ps_wf psb).
+      { intros u b o' c' w' E. unfold psb, ps_upd in E. destruct ((u =? t)%N && (b =? a)%N).
+        - inversion E. specialize (Hwf _ _ _ _ _ Ep). timeout 20 lia.
+        - now apply (Hwf u b o' c' w'). }
+      destruct (IH (S k) h psb Hwfb) as [Hps Hh].
+      destruct (amp_nested M true rest (S k) f body h psb) as [[[h2 ps2] oc2] ent]. simpl in *.
+      assert (Epsb : psb t a = Some (orig, (c + 1)%Z, ow)) by (unfold psb; apply ps_upd_same).
+      rewrite orb_true_r. simpl. rewrite Hps, Epsb.
+      assert (Ec : ((c + 1 - 1 =? 0) = false)%Z) by (specialize (Hwf _ _ _ _ _ Ep); apply Z.eqb_neq; timeout 20 lia).
+      rewrite Ec. simpl. split; [|assumption].
+      intros u b. destruct (key_eqb (u, b) (t, a)) eqn:Ek.
+      * apply key_eqb_eq in Ek. inversion Ek; subst u b. rewrite ps_upd_same, Ep.
+        replace (c + 1 - 1)%Z with c by (timeout 20 lia). reflexivity.
+      * assert (Hne : (u, b) <> (t, a)) by (intro X; apply key_eqb_eq in X; congruence).
+        rewrite ps_upd_other by assumption. rewrite Hps. unfold psb. now apply ps_upd_other.
+    + destruct (fpoint_at f k) eqn:Efp; simpl; try (split; intros; reflexivity).
+      * destruct (lookup h t a) as [orig|] eqn:El; simpl; [|split; intros; reflexivity].
+        destruct (pf orig) as [new|]; simpl; [|split; intros; reflexivity].
+        set (h1 := py_setattr h t a new).
+        set (psb := ps_upd ps t a (Some (orig, 1%Z, is_some (h t a)))).
+        assert (Hwfb : ps_wf psb).
+        { intros u b o' c' w' E. unfold psb, ps_upd in E. destruct ((u =? t)%N && (b =? a)%N).
+          - inversion E. timeout 20 lia.
+          - now apply (Hwf u b o' c' w'). }
+        destruct (IH (S k) h1 psb Hwfb) as [Hps Hh].
+        destruct (amp_nested M true rest (S k) f body h1 psb) as [[[h2 ps2] oc2] ent]. simpl in *.
+        assert (Epsb : psb t a = Some (orig, 1%Z, is_some (h t a))) by (unfold psb; apply ps_upd_same).
+        rewrite orb_true_r. simpl. rewrite Hps, Epsb. simpl. split.
+        -- intros u b. destruct (key_eqb (u, b) (t, a)) eqn:Ek.
+           ++ apply key_eqb_eq in Ek. inversion Ek; subst u b. now rewrite ps_upd_same, Ep.
+           ++ assert (Hne : (u, b) <> (t, a)) by (intro X; apply key_eqb_eq in X; congruence).
+              rewrite ps_upd_other by assumption. rewrite Hps. unfold psb. now apply ps_upd_other.
+        -- intros u b. destruct (key_eqb (u, b) (t, a)) eqn:Ek.
+           ++ apply key_eqb_eq in Ek. inversion Ek; subst u b. rewrite <- El.
+              apply restore1_exact. rewrite Hh. unfold h1. now rewrite set_same.
+           ++ assert (Hne : (u, b) <> (t, a)) by (intro X; apply key_eqb_eq in X; congruence).
+              rewrite restore1_other by assumption. rewrite Hh. unfold h1. now apply set_other.
+      * exfalso. destruct f; simpl in *; try discriminate; try contradiction.
+        destruct (Nat.eqb k0 k); discriminate.
+Qed.
+
+(* MAIN (ref-counting since b0781c1): for every prior _PATCH_STATE (every nesting depth), every
+   synchronous fault — INCLUDING faults inside the enter loop (getattr on a missing attribute,
+   patch_fn raising, setattr raising) — and every body exit: _PATCH_STATE and all own dicts are
+   exactly as before.  No side condition, no `amp_entered` premise.                                *)
+Theorem refcount_restores_exact ks f body h ps :
+  sync_fault f -> ps_wf ps -> amp_body_exact body ->
+  let r := with_amp M true ks f body (h, ps) in
+  (forall t a, snd (fst r) t a = ps t a) /\ (forall u b, fst (fst r) u b = h u b).
+Proof.
+  intros Hf Hwf Hb. destruct (with_amp_nested M true ks f body h ps) as [E1 _]. cbv zeta. rewrite E1.
+  apply amp_nested_exact; try assumption.
+  unfold amp_body_of. destruct (is_in_body f); [|assumption].
+  intros h0 ps0 _. split; intros; reflexivity.
+Qed.
+Theorem with_amp_is_exact_body ks f body :
+  sync_fault f -> amp_body_exact body -> amp_body_exact (with_amp M true ks f body).
+Proof. intros Hf Hb h0 ps0 Hwf. now apply refcount_restores_exact. Qed.
+Theorem refcount_nesting_exact n ks fb body :
+  amp_body_exact body -> amp_body_exact (amp_depth M true n ks fb body).
+Proof.
+  intros Hb. induction n as [|n IH]; simpl.
+  - unfold amp_body_of. destruct (is_in_body fb); [|assumption].
+    intros h0 ps0 _. split; intros; reflexivity.
+  - now apply with_amp_is_exact_body.
+Qed.
+Corollary refcount_restores_getattr ks f body h ps :
+  sync_fault f -> ps_wf ps -> amp_body_exact body ->
+  forall D a, lookup (fst (fst (with_amp M true ks f body (h, ps)))) D a = lookup h D a.
+Proof.
+  intros Hf Hwf Hb. apply own_eq_lookup.
+  now destruct (refcount_restores_exact ks f body h ps Hf Hwf Hb).
+Qed.
+
+(* conversion_api._activate_plugin_worlds: apply_monkey_patches around the ExitStack of plugin frames *)
+Definition lift_body (b : heap -> heap * outcome) : amp_body :=
+  fun hp => let r := b (fst hp) in (fst r, snd hp, snd r).
+Definition activate_worlds (ks : list amp_spec) (fa : fault) (frames : list (list spec * fault))
+  (body : heap -> heap * outcome) : amp_body :=
+  with_amp M true ks fa (lift_body (with_stack M true frames body)).
+Theorem activate_worlds_exact ks fa frames body :
+  sync_fault fa -> (forall sf, In sf frames -> sync_fault (snd sf)) -> body_restores body ->
+  amp_body_exact (activate_worlds ks fa frames body).
+Proof.
+  intros Hfa Hf Hb. apply with_amp_is_exact_body; [assumption|].
+  intros h0 ps0 _. unfold lift_body. simpl. split; [reflexivity|].
+  now apply stack_restores_exact.
+Qed.
+
+End Fixed.
 
 (* ================================================================== the x64 flag *)
 (* user_interface._temporary_x64(enabled) wraps conversion_api._force_jax_x64(enabled).
@@ -1328,15 +1585,16 @@ Fixpoint core_mid (M : hierarchy) (items : list item) (h : heap) : option heap :
     | _ => None
     end
   end.
-Lemma core_mid_spec M : forall items h hm, core_mid M items h = Some hm ->
-  exists unwind, forall body, core M items body h = (unwind (fst (body hm)), snd (body hm)).
+Lemma core_mid_spec M fixed : forall items h hm, core_mid M items h = Some hm ->
+  exists unwind, forall body, core M fixed items body h = (unwind (fst (body hm)), snd (body hm)).
 Proof.
   induction items as [|[s fp] rest IH]; intros h hm H; simpl in H.
   - inversion H; subst. exists (fun x => x). intro body. simpl. now destruct (body hm).
   - destruct fp; try discriminate.
     destruct (new_value s (lookup M h (spec_target s) (spec_attr s))) as [v|] eqn:En; [|discriminate].
     destruct (IH _ _ H) as [u Hu].
-    exists (fun x => restore1 (u x) (spec_target s, spec_attr s, lookup M h (spec_target s) (spec_attr s))).
+    exists (fun x => restore1 (u x) (spec_target s, spec_attr s, lookup M h (spec_target s) (spec_attr s),
+                                     owned_flag fixed h (spec_target s) (spec_attr s))).
     intro body. simpl. rewrite En, Hu. reflexivity.
 Qed.
 
@@ -1346,12 +1604,12 @@ Definition frames_of (fr : list (list spec_d * fault)) : list (list spec * fault
    the body returns, the observations made by the body (None: body not reached), after, outcome *)
 Definition pcase := (list (target * list target) * list (target * attr * value) *
                      list (list spec_d * fault) * bool * option (list obs) * list obs * outcome)%type.
-Definition pcase_ok (c : pcase) : bool :=
+Definition pcase_ok (fixed : bool) (c : pcase) : bool :=
   let '(ml, ol, fr, body_returns, mid, after, oc) := c in
   let M := mro_of ml in let h := heap_of ol in
   let frames := frames_of fr in
   let body : heap -> heap * outcome := fun x => (x, if body_returns then Returned else Raised) in
-  let r := with_stack M frames body h in
+  let r := with_stack M fixed frames body h in
   obs_ok M (fst r) after && outcome_eqb (snd r) oc &&
   match core_mid M (stack_items frames) h, mid with
   | Some hm, Some l => negb (existsb (fun x => is_in_body (snd x)) fr) && obs_ok M hm l
@@ -1366,20 +1624,20 @@ Definition pf_of (d : pf_d) : value -> option value :=
   match d with PfAffine base => fun o => Some (base + N.succ o)%N | PfRaise => fun _ => None end.
 Definition acase := (list (target * list target) * list (target * attr * value) *
                      list (target * attr * pf_d) * nat * bool *
-                     list obs * list (target * attr * option (value * Z)) * outcome)%type.
-Definition ps_obs_ok (ps : pstate) (l : list (target * attr * option (value * Z))) : bool :=
+                     list obs * list (target * attr * option (value * Z * bool)) * outcome)%type.
+Definition ps_obs_ok (ps : pstate) (l : list (target * attr * option (value * Z * bool))) : bool :=
   forallb (fun o => let '(t, a, e) := o in
     match ps t a, e with
-    | Some (v, c), Some (v', c') => N.eqb v v' && (c =? c')%Z
+    | Some (v, c, w), Some (v', c', w') => N.eqb v v' && (c =? c')%Z && Bool.eqb w w'
     | None, None => true
     | _, _ => false
     end) l.
-Definition acase_ok (c : acase) : bool :=
+Definition acase_ok (fixed : bool) (c : acase) : bool :=
   let '(ml, ol, ks, depth, body_returns, after, psafter, oc) := c in
   let M := mro_of ml in let h := heap_of ol in
   let ks' := map (fun x => (fst (fst x), snd (fst x), pf_of (snd x))) ks in
   let body : amp_body := fun hp => (fst hp, snd hp, if body_returns then Returned else Raised) in
-  let r := amp_depth M depth ks' NoFault body (h, ps_empty) in
+  let r := amp_depth M fixed depth ks' NoFault body (h, ps_empty) in
   obs_ok M (fst (fst r)) after && ps_obs_ok (snd (fst r)) psafter && outcome_eqb (snd r) oc.
 
 (* tolerant variants: an implementation that restores MORE than the model (an entry equal to the
@@ -1389,12 +1647,12 @@ Definition obs_ok_tol (M : hierarchy) (h0 hm : heap) (l : list obs) : bool :=
   forallb (fun o => let '(t, a, ow, lk) := o in
     (opt_eqb (hm t a) ow || opt_eqb (h0 t a) ow || opt_eqb (lookup M h0 t a) ow) &&
     (opt_eqb (lookup M hm t a) lk || opt_eqb (lookup M h0 t a) lk)) l.
-Definition pcase_ok_tol (c : pcase) : bool :=
+Definition pcase_ok_tol (fixed : bool) (c : pcase) : bool :=
   let '(ml, ol, fr, body_returns, mid, after, oc) := c in
   let M := mro_of ml in let h := heap_of ol in
   let frames := frames_of fr in
   let body : heap -> heap * outcome := fun x => (x, if body_returns then Returned else Raised) in
-  let r := with_stack M frames body h in
+  let r := with_stack M fixed frames body h in
   obs_ok_tol M h (fst r) after && outcome_eqb (snd r) oc &&
   match core_mid M (stack_items frames) h, mid with
   | Some hm, Some l => negb (existsb (fun x => is_in_body (snd x)) fr) && obs_ok M hm l
@@ -1402,27 +1660,27 @@ Definition pcase_ok_tol (c : pcase) : bool :=
   | Some _, None => existsb (fun x => is_in_body (snd x)) fr
   | None, Some _ => false
   end.
-Definition ps_obs_ok_tol (ps : pstate) (l : list (target * attr * option (value * Z))) : bool :=
+Definition ps_obs_ok_tol (ps : pstate) (l : list (target * attr * option (value * Z * bool))) : bool :=
   forallb (fun o => let '(t, a, e) := o in
     match ps t a, e with
-    | Some (v, c), Some (v', c') => N.eqb v v' && (c =? c')%Z
+    | Some (v, c, w), Some (v', c', w') => N.eqb v v' && (c =? c')%Z && Bool.eqb w w'
     | _, None => true
     | None, Some _ => false
     end) l.
-Definition acase_ok_tol (c : acase) : bool :=
+Definition acase_ok_tol (fixed : bool) (c : acase) : bool :=
   let '(ml, ol, ks, depth, body_returns, after, psafter, oc) := c in
   let M := mro_of ml in let h := heap_of ol in
   let ks' := map (fun x => (fst (fst x), snd (fst x), pf_of (snd x))) ks in
   let body : amp_body := fun hp => (fst hp, snd hp, if body_returns then Returned else Raised) in
-  let r := amp_depth M depth ks' NoFault body (h, ps_empty) in
+  let r := amp_depth M fixed depth ks' NoFault body (h, ps_empty) in
   obs_ok_tol M h (fst (fst r)) after && ps_obs_ok_tol (snd (fst r)) psafter && outcome_eqb (snd r) oc.
 
 (* the real spec list, dumped by the harness: predicted own / getattr differences after one
    activation stack, and the clashes that explain them *)
-Definition predicted_diffs (ml : list (target * list target)) (ol : list (target * attr * value))
+Definition predicted_diffs (fixed : bool) (ml : list (target * list target)) (ol : list (target * attr * value))
   (fr : list (list spec_d * fault)) (universe : list key) : list key * list key :=
   let M := mro_of ml in let h := heap_of ol in
-  let h' := fst (with_stack M (frames_of fr) (fun x => (x, Returned)) h) in
+  let h' := fst (with_stack M fixed (frames_of fr) (fun x => (x, Returned)) h) in
   (filter (fun k => negb (opt_eqb (lookup M h' (fst k) (snd k)) (lookup M h (fst k) (snd k)))) universe,
    filter (fun k => negb (opt_eqb (h' (fst k) (snd k)) (h (fst k) (snd k)))) universe).
 Definition real_clashes (ml : list (target * list target)) (ol : list (target * attr * value))
@@ -1439,13 +1697,20 @@ Local Open Scope N_scope.
    attrs:   0 = __call__, 1 = helper (missing everywhere), 2 = f (module function)                  *)
 Definition M0 : hierarchy := mro_of [(1, [0]); (4, [1; 3; 0])].
 Definition h0 : heap := heap_of [(0, 0, 10%N); (2, 2, 20%N); (3, 0, 30%N)].
+Definition all_own_equal (h : heap) : bool :=
+  forallb (fun t => forallb (fun a => opt_eqb (h t a) (h0 t a)) [0; 1; 2]) [0; 1; 2; 3; 4].
+Definition all_getattr_equal (h : heap) : bool :=
+  forallb (fun t => forallb (fun a => opt_eqb (lookup M0 h t a) (lookup M0 h0 t a)) [0; 1; 2]) [0; 1; 2; 3; 4].
+Definition some_faults : list fault :=
+  [NoFault; InBody; BeforeSet 0; BeforeSet 1; BeforeSet 2; BeforeSet 3; BeforeSet 4; BeforeSet 5].
 
-(* child patched BEFORE parent: clash-free, everything restored; duplicate spec, missing attribute *)
+(* child patched BEFORE parent; duplicate spec; missing attribute *)
 Definition specs_ok : list spec :=
   [Assign 2 1 77%N; Monkey 1 0 (fun o => Some 100%N); Monkey 0 0 (fun o => Some 101%N);
    Assign 2 2 21%N; Assign 2 2 22%N; Monkey 1 0 (fun o => Some 102%N)].
-Example ex_clash_free : no_inherited_clash M0 h0 specs_ok = true.
-Proof. vm_compute. reflexivity. Qed.
+(* parent patched BEFORE the inheriting child *)
+Definition specs_clash : list spec := [Monkey 0 0 (fun o => Some 101%N); Monkey 1 0 (fun o => Some 100%N)].
+
 Example ex_patched_inside :
   let hm := core_mid M0 (annotate specs_ok 0 NoFault) h0 in
   match hm with
@@ -1453,65 +1718,104 @@ Example ex_patched_inside :
   | None => False
   end.
 Proof. vm_compute. reflexivity. Qed.
+
+(* ---- since b0781c1 (fixed = true): own dicts exactly restored in both orders, at every fault point,
+   also for the diamond observer 4 *)
+Example ex_fixed_restores_exactly :
+  forallb (fun specs => forallb (fun f =>
+    all_own_equal (fst (with_patches M0 true specs f (fun x => (x, Returned)) h0))) some_faults)
+    [specs_ok; specs_clash; [Monkey 1 0 (fun _ => Some 100%N)]] = true.
+Proof. vm_compute. reflexivity. Qed.
+
+(* ---- before b0781c1 (fixed = false) *)
+Example ex_clash_free : no_inherited_clash M0 h0 specs_ok = true.
+Proof. vm_compute. reflexivity. Qed.
 Example ex_restored_all_faults :
   forallb (fun f =>
-    let h := fst (with_patches M0 specs_ok f (fun x => (x, Returned)) h0) in
+    let h := fst (with_patches M0 false specs_ok f (fun x => (x, Returned)) h0) in
     forallb (fun t => forallb (fun a => opt_eqb (lookup M0 h t a) (lookup M0 h0 t a)) [0; 1; 2]) [0; 1; 2; 3])
-    [NoFault; InBody; BeforeSet 0; BeforeSet 1; BeforeSet 2; BeforeSet 3; BeforeSet 4; BeforeSet 5] = true.
+    some_faults = true.
 Proof. vm_compute. reflexivity. Qed.
 (* the own dict of Child gains __call__ (materialised), the missing helper is deleted again *)
 Example ex_materialised :
-  let h := fst (with_patches M0 specs_ok NoFault (fun x => (x, Returned)) h0) in
+  let h := fst (with_patches M0 false specs_ok NoFault (fun x => (x, Returned)) h0) in
   (h0 1 0, h 1 0, h 2 1, h0 2 1) = (None, Some 10%N, None, None).
 Proof. vm_compute. reflexivity. Qed.
 Example ex_coherent_for_chain : mro_coherent M0 h0 specs_ok 1 0 = true.
 Proof. vm_compute. reflexivity. Qed.
-
-(* parent patched BEFORE the inheriting child: the side condition fails ... *)
-Definition specs_clash : list spec := [Monkey 0 0 (fun o => Some 101%N); Monkey 1 0 (fun o => Some 100%N)].
 Example ex_clash_detected : no_inherited_clash M0 h0 specs_clash = false.
 Proof. vm_compute. reflexivity. Qed.
 End Examples.
 
 Local Open Scope N_scope.
-(* ... and it is necessary: the child saves the parent's PATCHED value as its original *)
+(* ---------------------------------------------------------------- still true of the current code *)
+(* an exception between setattr and applied.append (asynchronous only) is not unwound — by either
+   code shape *)
+Theorem async_fault_after_setattr_leaks : exists M h specs k t a, forall fixed,
+  lookup M (fst (with_patches M fixed specs (AfterSet k) (fun x => (x, Returned)) h)) t a <> lookup M h t a.
+Proof.
+  exists Examples.M0, Examples.h0, [Assign 2 2 21%N], 0%nat, 2, 2. intros [|]; vm_compute; discriminate.
+Qed.
+(* the same window in apply_monkey_patches: between setattr and `_PATCH_STATE[key] = ...` *)
+Theorem amp_async_fault_leaks : exists M h ks k t a,
+  lookup M (fst (fst (with_amp M true ks (AfterSet k) (fun hp => (fst hp, snd hp, Returned)) (h, ps_empty)))) t a
+  <> lookup M h t a.
+Proof.
+  exists Examples.M0, Examples.h0, [(0, 0, fun o => Some 500%N)], 0%nat, 0, 0. vm_compute. discriminate.
+Qed.
+(* non-vacuity of refcount_restores_exact / refcount_nesting_exact: depth 3, body raising, and an
+   enter-loop fault (getattr on a missing attribute for the second key) *)
+Example amp_fixed_example :
+  let ks := [(0, 0, fun o => Some 500%N); (2, 2, fun o => Some 501%N); (0, 0, fun o => Some 502%N)] in
+  let r := amp_depth Examples.M0 true 3 ks InBody (fun hp => (fst hp, snd hp, Returned)) (Examples.h0, ps_empty) in
+  let bad := [(0, 0, fun o => Some 500%N); (2, 1, fun o => Some 501%N)] in
+  let r' := with_amp Examples.M0 true bad NoFault (fun hp => (fst hp, snd hp, Returned)) (Examples.h0, ps_empty) in
+  snd r = Raised /\ Examples.all_own_equal (fst (fst r)) = true /\
+  amp_entered Examples.M0 true bad NoFault (Examples.h0, ps_empty) = false /\
+  snd r' = Raised /\ Examples.all_own_equal (fst (fst r')) = true /\
+  forallb (fun t => forallb (fun a => negb (is_some (snd (fst r) t a)) && negb (is_some (snd (fst r') t a)))
+                            [0; 1; 2]) [0; 1; 2; 3] = true.
+Proof. vm_compute. repeat split; reflexivity. Qed.
+
+(* ---------------------------------------------------------------- the defects b0781c1 repaired:
+   refutations of the code BEFORE that commit (fixed = false), kept as documentation and because the
+   harness still recognises that code shape *)
+(* the side condition was necessary: the child saves the parent's PATCHED value as its original *)
 Theorem inherited_clash_leaks : exists M h specs t a,
   no_inherited_clash M h specs = false /\ mro_coherent M h specs t a = true /\
-  lookup M (fst (with_patches M specs NoFault (fun x => (x, Returned)) h)) t a <> lookup M h t a.
+  lookup M (fst (with_patches M false specs NoFault (fun x => (x, Returned)) h)) t a <> lookup M h t a /\
+  lookup M (fst (with_patches M true specs NoFault (fun x => (x, Returned)) h)) t a = lookup M h t a.
 Proof.
   exists Examples.M0, Examples.h0, Examples.specs_clash, 1, 0. vm_compute.
-  repeat split; discriminate.
+  repeat split; try discriminate.
 Qed.
-(* multiple inheritance: materialising an inherited attribute on a class shadows what a subclass
-   resolved through ANOTHER base — no clash, one spec; mro_coherent is what rules it out *)
+(* multiple inheritance: materialising an inherited attribute on a class shadowed what a subclass
+   resolved through ANOTHER base — no clash, one spec; mro_coherent ruled it out *)
 Theorem incoherent_mro_leaks : exists M h specs D a,
   no_inherited_clash M h specs = true /\ mro_coherent M h specs D a = false /\
-  lookup M (fst (with_patches M specs NoFault (fun x => (x, Returned)) h)) D a <> lookup M h D a.
+  lookup M (fst (with_patches M false specs NoFault (fun x => (x, Returned)) h)) D a <> lookup M h D a /\
+  lookup M (fst (with_patches M true specs NoFault (fun x => (x, Returned)) h)) D a = lookup M h D a.
 Proof.
   exists Examples.M0, Examples.h0, [Monkey 1 0 (fun _ => Some 100%N)], 4, 0. vm_compute.
-  repeat split; discriminate.
+  repeat split; try discriminate.
 Qed.
-(* an exception between setattr and applied.append (asynchronous only) is not unwound *)
-Theorem async_fault_after_setattr_leaks : exists M h specs k t a,
-  lookup M (fst (with_patches M specs (AfterSet k) (fun x => (x, Returned)) h)) t a <> lookup M h t a.
-Proof.
-  exists Examples.M0, Examples.h0, [Assign 2 2 21%N], 0%nat, 2, 2. vm_compute. discriminate.
-Qed.
-(* apply_monkey_patches: an exception in the enter loop (here: getattr on a missing attribute for
-   the second key) leaves the first key patched and its count at 1 for ever *)
+(* apply_monkey_patches: an exception in the enter loop (getattr on a missing attribute for the
+   second key) left the first key patched and its count at 1 for ever; repaired *)
 Theorem amp_apply_fault_leaks : exists M h ks t a,
-  let r := with_amp M ks NoFault (fun hp => (fst hp, snd hp, Returned)) (h, ps_empty) in
-  amp_entered M ks NoFault (h, ps_empty) = false /\
-  lookup M (fst (fst r)) t a <> lookup M h t a /\ snd (fst r) t a <> ps_empty t a.
+  let r := with_amp M false ks NoFault (fun hp => (fst hp, snd hp, Returned)) (h, ps_empty) in
+  let r' := with_amp M true ks NoFault (fun hp => (fst hp, snd hp, Returned)) (h, ps_empty) in
+  amp_entered M false ks NoFault (h, ps_empty) = false /\
+  lookup M (fst (fst r)) t a <> lookup M h t a /\ snd (fst r) t a <> ps_empty t a /\
+  lookup M (fst (fst r')) t a = lookup M h t a /\ snd (fst r') t a = ps_empty t a.
 Proof.
   exists Examples.M0, Examples.h0, [(0, 0, fun o => Some 500%N); (2, 1, fun o => Some 501%N)], 0, 0.
-  vm_compute. repeat split; discriminate.
+  vm_compute. repeat split; try discriminate.
 Qed.
-(* non-vacuity of refcount_restores / refcount_nesting: depth 3, body raising *)
+(* non-vacuity of the pre-b0781c1 refcount_restores / refcount_nesting: depth 3, body raising *)
 Example amp_nesting_example :
   let ks := [(0, 0, fun o => Some 500%N); (2, 2, fun o => Some 501%N); (0, 0, fun o => Some 502%N)] in
-  let r := amp_depth Examples.M0 3 ks InBody (fun hp => (fst hp, snd hp, Returned)) (Examples.h0, ps_empty) in
-  amp_entered Examples.M0 ks NoFault (Examples.h0, ps_empty) = true /\
+  let r := amp_depth Examples.M0 false 3 ks InBody (fun hp => (fst hp, snd hp, Returned)) (Examples.h0, ps_empty) in
+  amp_entered Examples.M0 false ks NoFault (Examples.h0, ps_empty) = true /\
   snd r = Raised /\
   forallb (fun t => forallb (fun a => opt_eqb (fst (fst r) t a) (Examples.h0 t a) &&
                                        negb (is_some (snd (fst r) t a))) [0; 1; 2]) [0; 1; 2; 3] = true.
